@@ -55,15 +55,15 @@ KEY_ECC = "ellipsoid-eccentric-core"     # mechanism key of the OPEN finding in 
 def plan(tier):
     if tier == "quick":
         return dict(n_cases=1800, shards=2, classes=CLASSES, timeout_s=600,
-                    min_evals={"sphere": 2000, "cylinder": 2000, "ellipsoid": 1500, "s_shell": 150, "e_shell": 100, "generate_mask": 60,
+                    min_evals={"sphere": 2000, "cylinder": 2000, "ellipsoid": 1500, "s_shell": 120, "e_shell": 90, "generate_mask": 60,
                                "soft_range": 1500, "soft_core": 700, "union": 1500, "intersection": 1500, "subtraction": 800,
                                "difference": 500, "algebra_inputs": 6000, "algebra_range": 6000, "shell_relational": 150,
                                "name_vs_direct": 80, "file_vs_array": 250})
     return dict(n_cases=43200, shards=16, classes=CLASSES, timeout_s=3000,
-                min_evals={"sphere": 40000, "cylinder": 25000, "ellipsoid": 30000, "s_shell": 4000, "e_shell": 2500, "generate_mask": 1500,
-                           "soft_range": 35000, "soft_core": 17000, "union": 35000, "intersection": 35000, "subtraction": 18000,
-                           "difference": 12000, "algebra_inputs": 120000, "algebra_range": 120000, "shell_relational": 4000,
-                           "name_vs_direct": 2000, "file_vs_array": 6000})
+                min_evals={"sphere": 25000, "cylinder": 22000, "ellipsoid": 20000, "s_shell": 3500, "e_shell": 2500, "generate_mask": 1700,
+                           "soft_range": 38000, "soft_core": 17000, "union": 45000, "intersection": 45000, "subtraction": 22000,
+                           "difference": 16000, "algebra_inputs": 170000, "algebra_range": 170000, "shell_relational": 4000,
+                           "name_vs_direct": 2000, "file_vs_array": 8000})
 
 
 # =================================================================================================
